@@ -64,11 +64,12 @@ def main():
     cmd = sys.argv[1]
     if cmd == "import":
         wt, prop = sys.argv[2], sys.argv[3]
+        prefix = sys.argv[4] if len(sys.argv) > 4 else prop
         for ab in ("A", "B"):
             src = os.path.join(wt, "_seed", ab)
             if not os.path.isdir(src):
                 continue
-            name = "%s_%s" % (prop, ab)
+            name = "%s_%s" % (prefix, ab)
             dst = os.path.join(SD, name)
             os.makedirs(dst, exist_ok=True)
             for f in ("patch.diff", "demo.py", "notes.md"):
